@@ -4,6 +4,8 @@ from . import progress
 
 def run(ctx):
     progress.rule_blocking(ctx)
+    from . import layout
+    layout.rule_clause_templates(ctx)  # the bounds count the sets of the base semantics: the oracle must answer with exactly those
     from . import splits
     splits.rule_split_contents(ctx)
     progress.rule_driver_loops(ctx)
